@@ -18,11 +18,14 @@ KAHN_ROLES = {}
 
 def check(I, fr, lname, names, entry, fresh, head, outs):
     fn = lname[0]
-    if fn.endswith("strict::graph::kahn"):
+    if fn.endswith("strict::graph::kahn") or kahn_roles(entry)[0]:
+        # by name (a loop in `kahn` that lost the signature is reported as not decided) or by signature (the function
+        # was renamed or its loop moved into a helper)
         kahn_step(I, fr, lname, names, entry, fresh, head, outs)
     if fn.endswith("::is_convex_subgraph"):
         convex_step(I, fr, lname, names, entry, fresh, head, outs)
-    if fn.endswith("::map_operations") and "lax::functor" in fn:
+    if "lax::functor::" in fn:
+        # any loop of the lax functor modules that accumulates a diagram (the helper may have any name)
         image_accumulation_step(I, fr, lname, names, entry, fresh, head, outs)
     if fn.endswith("::is_convex_subgraph") and DEBUG:
         for r, (place, v) in entry.items():
@@ -37,6 +40,44 @@ def _ob(I, fr, what, goal, ok, st, undecided=False):
     node = {"sp": fr.fn["sp"] if fr.fn else "?"}
     I.oblige("ENS", fr, node, what, goal, ok, "loop-step" if ok else "", detail="" if ok else I.describe(st),
              status=("undecided" if (undecided and not ok) else None))
+
+
+def kahn_roles(entry):
+    """The loop-carried variables of a loop with kahn's signature, by role, decided from their values at loop entry
+    (robust to renaming of locals and of the function): a zero depth counter, an order array of zeros, unvisited flags
+    of ones (possibly with the initial frontier already cleared), the in-degree function, and a frontier that is the
+    zero set of something.  ({}, set()) when the loop does not have exactly this state."""
+    import inv
+    roles = {}
+    mark_next = set()
+    for r, (place, v) in entry.items():
+        if isinstance(v, VNat) and v.p.is_const() and v.p.const_value() == 0:
+            roles.setdefault("depth", r)
+        elif isinstance(v, VSeq) and v.t[0] == "fill" and as_poly(v.t[1]) == Poly.const(0):
+            roles.setdefault("order", r)
+        elif isinstance(v, VSeq) and v.t[0] == "fill" and as_poly(v.t[1]) == Poly.const(1):
+            roles.setdefault("unvisited", r)
+        elif isinstance(v, VSeq) and v.t[0] == "sac" and v.t[1][0] == "fill" and as_poly(v.t[1][1]) == Poly.const(1) \
+                and as_poly(v.t[3]) == Poly.const(0):
+            roles.setdefault("unvisited", r)
+            mark_next.add("unvisited")
+        elif isinstance(v, VRec) and v.ty == inv.FF:
+            roles.setdefault("indegree", r)
+        elif isinstance(v, VSeq) and v.t[0] == "zero":
+            roles.setdefault("frontier", r)
+    if len(roles) != 5 or len(entry) != 5:
+        return {}, set()
+    return roles, mark_next
+
+
+def announce(I, fr, lname, entry, fresh):
+    """Called by run_loop BEFORE the body is evaluated: a loop with kahn's signature is registered, so that the lemmas
+    about kahn's algorithm are available inside its body; kahn_step then checks that the body IS a step of it."""
+    roles, _ = kahn_roles(entry)
+    if roles:
+        KAHN_ROLES[tuple(lname)] = {k: fresh[r] for k, r in roles.items()}
+        return True
+    return False
 
 
 def kahn_step(I, fr, lname, names, entry, fresh, head, outs):
